@@ -180,7 +180,9 @@ def strat_invalid(tier):
         fn = draw(st.sampled_from(["pack", "unpack"]))
         nbits = draw(st.sampled_from([1, 2, 4]))
         n = draw(st.integers(1, 8)) * 8
-        case = {"kind": kind, "fn": fn, "nbits": nbits, "n": n, "order": draw(st.sampled_from(["big", "little"]))}
+        case = {"kind": kind, "fn": fn, "nbits": nbits, "n": n, "order": draw(st.sampled_from(["big", "little"])),
+                # the bad argument comes together with a perfectly good caller-supplied uint8 output buffer
+                "with_buf": draw(st.booleans())}
         if kind == "dtype":
             case["dtype"] = draw(st.sampled_from(["int8", "uint16", "float32", "int64", "bool"]))
         elif kind == "nbits":
@@ -203,6 +205,9 @@ def check_invalid(case, ctx):
     arr = np.zeros(n, dtype=dtype)
     kwargs = {"bitorder": case["order"]}
     args = [arr, case["nbits"]]
+    if case.get("with_buf") and case["kind"] in ("dtype", "order") :
+        per = 8 // case["nbits"]
+        args.append(np.zeros(n * per if case["fn"] == "unpack" else n // per, dtype=np.uint8))
     if case["kind"] == "bufsize":
         per = 8 // case["nbits"]
         right = n * per if case["fn"] == "unpack" else n // per
